@@ -252,6 +252,17 @@ def run_config(cfg):
                     except Exception as ex:  # noqa: BLE001
                         obs['notes'].append('unsubscribe: ' + type(ex).__name__)
                 obs['subscribed'] = sum(1 for s in subs if s.is_subscribed)
+                if mode == 'enforced':
+                    # the whole life of an enforcing consumer: restart (= stop_all + start_all with the same parameters)
+                    try:
+                        cons.restart()
+                        obs['restart'] = 'ok'
+                    except Exception as ex:  # noqa: BLE001
+                        obs['restart'] = type(ex).__name__
+                    obs['ssl'] = cons.is_ssl_connection
+                    if cons._http_server is not None and cons._http_server.server_port is not None:
+                        ports[cons._http_server.server_port] = 'cons'
+                        obs['cons_server_tls'] = bool(cons._http_server._ssl_context)
             # shutdown: the provider ends the remaining subscriptions (SubscriptionEnd to EndTo), then the consumer stops
             try:
                 dev.stop_all(send_subscription_end=True)
@@ -325,6 +336,127 @@ def covering_configs(seed):
     return sorted(set(res))
 
 
+# ------------------------------------------------------------------------------------------------ wire level: delivery to an http:// subscriber
+
+def run_delivery(args):
+    """provider (TLS or not, sync or async subscription manager) + a subscription whose NotifyTo / EndTo name a plain
+    TCP socket with the http scheme; returns what arrived at that socket"""
+    prov_tls, use_async = args
+    e = env()
+    import socket
+    import threading
+    from decimal import Decimal
+
+    from sdc11073.consumer.subscription import ConsumerSubscription
+    from sdc11073.provider import provider_components_async_factory
+    from sdc11073.xml_types import eventing_types
+    from sdc11073.xml_types.dpws_types import DeviceEventingFilterDialectURI
+    obs = {'prov_tls': prov_tls, 'async': use_async, 'first_bytes': [], 'error': None}
+    srv = socket.socket()
+    srv.bind(('127.0.0.1', 0))
+    srv.listen(16)
+    srv.settimeout(0.5)
+    stop = threading.Event()
+
+    def sink():
+        while not stop.is_set():
+            try:
+                conn, _ = srv.accept()
+            except OSError:
+                continue
+            conn.settimeout(1.5)
+            data = b''
+            try:
+                while len(data) < 600:
+                    chunk = conn.recv(4096)
+                    if not chunk:
+                        break
+                    data += chunk
+            except OSError:
+                pass
+            obs['first_bytes'].append(data[:600])
+            try:
+                conn.close()
+            except OSError:
+                pass
+    th = threading.Thread(target=sink, daemon=True)
+    th.start()
+    port = srv.getsockname()[1]
+    dev = cons = None
+    try:
+        comps = provider_components_async_factory() if use_async else e.provider_components_sync_factory()
+        dev = e.mockstuff.SomeDevice.from_mdib_file(e.mockstuff.MockWsDiscovery('127.0.0.1'), None, MDIB_FILE,
+                                                   ssl_context_container=mk_container() if prov_tls else None,
+                                                   components=comps, max_subscription_duration=10)
+        dev.start_all(start_rtsample_loop=False)
+        cons = e.SdcConsumer(dev.get_xaddrs()[0], e.SdcV1Definitions, mk_container() if prov_tls else None,
+                             force_ssl_connect=bool(prov_tls), socket_timeout=8)
+        cons.start_all(fixed_renew_interval=None)
+        action = dev.mdib.sdc_definitions.Actions.EpisodicMetricReport
+        hosted = next(h for h in cons.host_description.relationship.Hosted if any(t.localname == 'StateEventService' for t in h.Types))
+        flt = eventing_types.FilterType()
+        flt.text = action
+        flt.Dialect = DeviceEventingFilterDialectURI.ACTION
+        sub = ConsumerSubscription(cons.msg_factory, cons.sdc_definitions.data_model, cons.get_soap_client, hosted, flt,
+                                   f'http://127.0.0.1:{port}/sink/notify', f'http://127.0.0.1:{port}/sink/end', 'verif')
+        sub.subscribe(expires=60)
+        obs['subscribed'] = bool(sub.is_subscribed)
+        try:
+            with dev.mdib.metric_state_transaction() as mgr:
+                st = mgr.get_state('numeric.ch0.vmd1')
+                if st.MetricValue is None:
+                    st.mk_metric_value()
+                st.MetricValue.Value = Decimal(42)
+        except Exception as ex:  # noqa: BLE001
+            obs['commit_exception'] = type(ex).__name__    # the synchronous manager lets the failed handshake escape
+        t_end = time.time() + 8
+        while time.time() < t_end and not obs['first_bytes']:
+            time.sleep(0.05)
+        time.sleep(0.5)
+        obs['after_report'] = len(obs['first_bytes'])
+    except Exception as ex:  # noqa: BLE001
+        import traceback
+        obs['error'] = traceback.format_exc()[-600:]
+    finally:
+        try:
+            if dev is not None:
+                dev.stop_all(send_subscription_end=True)      # SubscriptionEnd goes to the EndTo address
+        except Exception:  # noqa: BLE001
+            pass
+        try:
+            if cons is not None:
+                cons.stop_all(unsubscribe=False)
+        except Exception:  # noqa: BLE001
+            pass
+        time.sleep(0.3)
+        stop.set()
+        th.join(2)
+        srv.close()
+    obs['connections'] = len(obs['first_bytes'])
+    obs['plaintext'] = [b[:80].decode('latin1') for b in obs['first_bytes'] if b[:5] in (b'POST ', b'GET  ') or b'Envelope' in b or b'HTTP/1.' in b[:200]]
+    obs['tls_hello'] = sum(1 for b in obs['first_bytes'] if b[:2] == b'\x16\x03')
+    obs['first_bytes'] = [b[:24].hex() for b in obs['first_bytes']]
+    return obs
+
+
+def check_delivery(ctx, observations, out_lines):
+    for obs, model in zip(observations, out_lines):
+        case = {'delivery': [obs['prov_tls'], obs['async']]}
+        if obs.get('error') or not obs.get('connections'):
+            raise RuntimeError(f'delivery scenario {case} did not reach the sink: {obs}')
+        plain = bool(obs['plaintext'])
+        if obs['prov_tls'] and plain:
+            ctx.fail('tls:provider-delivers-in-plaintext:' + ('async' if obs['async'] else 'sync'),
+                     f"provider with TLS ({'async' if obs['async'] else 'sync'} subscription manager) sent to the http:// "
+                     f"NotifyTo/EndTo of a subscriber in plaintext: {obs['plaintext'][:2]}", case)
+        if model is not None and (model == '1') == plain:
+            ctx.disagree('notification delivery uses TLS', case, model, f"plaintext={plain} tls_hello={obs['tls_hello']}")
+        _case(ctx, case, nontrivial=bool(obs['prov_tls']),
+              sample={'delivery to http:// NotifyTo': case['delivery'], 'connections': obs['connections'],
+                      'TLS client hellos': obs['tls_hello'], 'plaintext': obs['plaintext'][:1]} if obs['prov_tls'] and obs['async'] else None)
+        ctx.count(f"delivery:tls={obs['prov_tls']}:async={obs['async']}:plaintext={int(plain)}")
+
+
 # ------------------------------------------------------------------------------------------------ checks on one observation
 
 def _case(ctx, canon, nontrivial=True, sample=None):
@@ -371,6 +503,8 @@ def model_lines(obs):
     evs = f'c{ok}'
     if any(a[0] == 'hostedEpr' for a in obs['addresses']):
         evs += ' g1' if prov_alt else ' g0'     # the hosted services are addressed by ip, the device by the x-addr
+    if obs.get('restart'):
+        evs += f' s c{ok}' + (' g1' if prov_alt else ' g0')
     return [f"crun {mode} {evs}",
             f"sites {prov_tls} {prov_server} {prov_alt} {mode} {cons_server} {cons_alt} {ssl_letter(obs.get('ssl'))}"]
 
@@ -438,37 +572,46 @@ def consumer_events(ctx, model_cases):
             return False
     import copy
     n = ctx.n(150, 1500)
-    for k in range(n):
+    fixed = [('enforced', ['c1', 's', 'c0', 'g0']), ('enforced', ['c1', 'g1', 's', 'c0', 's', 'cx', 'c0', 'g2']),
+             ('enforced', ['s', 'c0']), ('optional', ['c1', 's', 'c0', 'g0']), ('optional', ['c0', 's', 'c1'])]
+    for k in range(n + len(fixed)):
         mode = rng.choice(MODES)
+        script = None
+        if k < len(fixed):
+            mode, script = fixed[k]
         cc = copy.deepcopy(e.consumerimpl.default_sdc_consumer_components_sync) if hasattr(e.consumerimpl, 'default_sdc_consumer_components_sync') else e.consumerimpl.default_components_factory()
         cc.soap_client_class = Scripted
         cons = e.SdcConsumer('https://127.0.0.1:9/x', e.SdcV1Definitions, container if mode != 'none' else None,
                              force_ssl_connect=(mode == 'enforced'), components=cc)
         Scripted.created = []
         evs = []
-        for _ in range(rng.randint(1, 8)):
+        for step_no in range(len(script) if script else rng.randint(1, 8)):
             x = rng.random()
+            forced = script[step_no] if script else None
+            if forced:
+                x = 0.0 if forced[0] == 'c' else (0.5 if forced[0] == 'g' else 0.9)
             if x < 0.45:
-                ok = rng.choice(['1', '0', '0', 'x'])
+                ok = forced[1] if forced else rng.choice(['1', '0', '0', 'x'])
                 Scripted.script = [ok, '1']
                 try:
                     cons._connect()
                 except (ssl.SSLError, TimeoutError):
                     pass
                 evs.append('c' + ok)
-            elif x < 0.8:
-                n = rng.randrange(3)
-                cons.get_soap_client(f'https://127.0.0.1:{9 + n}/other/path')
+            elif x < 0.75:
+                n = int(forced[1:]) if forced else rng.randrange(3)
+                # the address may come from the metadata of a mis-configured / malicious provider: plain http scheme
+                cons.get_soap_client(f"{rng.choice(['https', 'http'])}://127.0.0.1:{9 + n}/other/path")
                 evs.append(f'g{n}')
             else:
-                for c in cons._soap_clients.values():
-                    c.close()
-                cons._soap_clients = {}     # what stop_all does with the pool (no event sink / subscriptions here)
+                cons.stop_all(unsubscribe=rng.random() < 0.5)     # the real stop_all (restart = stop_all + start_all)
                 evs.append('s')
         impl = f"ssl={ssl_letter(cons.is_ssl_connection)} clients=[{' '.join(map(str, Scripted.created))}]"
         case = {'consumer-events': [mode] + evs}
         if mode == 'enforced' and (0 in Scripted.created or cons.is_ssl_connection is not True):
-            ctx.fail('tls:enforced-consumer-plaintext-client', f'events {evs}: clients {Scripted.created}, is_ssl_connection {cons.is_ssl_connection}', case)
+            ctx.fail('tls:enforced-consumer-plaintext-client',
+                     f'events {evs} (c1/c0/cx = connect ok / ssl.SSLError / other error, g = get_soap_client, s = stop_all): '
+                     f'TLS flags of the clients created {Scripted.created}, is_ssl_connection {cons.is_ssl_connection}', case)
         model_cases.append((case, f"crun {mode} " + ' '.join(evs), impl))
         _case(ctx, case, nontrivial=mode != 'none', sample={**case, 'impl': impl} if k == 3 else None)
         ctx.count('events:' + mode)
@@ -576,6 +719,16 @@ def run(ctx):
         ctx.count(f"consumer-clients:{obs['cons_clients']}")
         for s in sites:
             ctx.count('site:' + s)
+    # ---- wire level: notifications to a subscriber that named an http:// address
+    t0 = time.time()
+    deliveries = [(1, 1), (1, 0), (0, 1), (0, 0)]
+    import multiprocessing
+    with multiprocessing.get_context('fork').Pool(4) as pool:
+        dobs = pool.map(run_delivery, deliveries, chunksize=1)
+    ctx.notes['t_delivery_s'] = round(time.time() - t0, 1)
+    dbase = len(lines)
+    lines += [f'delivery {a} http {b}' for a, b in deliveries]
+    expect += [None] * len(deliveries)
     # ---- event sequences
     model_cases = []
     consumer_events(ctx, model_cases)
@@ -588,9 +741,12 @@ def run(ctx):
                 ctx.disagree('verify mode / constructor table', {'line': lines[i]}, out[i], exp)
         for obs, pos in per_obs:
             compare(ctx, obs, out[pos:pos + 2])
+        check_delivery(ctx, dobs, out[dbase:dbase + len(deliveries)])
         for (case, line, impl), o in zip(model_cases, out[base:]):
             if o != impl:
                 ctx.disagree('consumer event sequence: is_ssl_connection and clients created', case, o, impl)
+    if not ctx.driver_ok:
+        check_delivery(ctx, dobs, [None] * len(deliveries))
     ctx.notes['explanation'] = ('thorough: all 216 configurations on localhost; quick: every (provider TLS x consumer mode x '
                                 'event-sink server) combination with the other dimensions rotated by the seed')
 
